@@ -15,10 +15,13 @@ PID = "C05"
 PAYLOADS = [None, 17, "NaN", True, {"x": [1, "NaN", None]}, [[], {}], {"a": {"b": {"c": {"d": [1, 2, {"e": None}]}}}},
             18446744073709551615, 1.5, ""]
 NAMESETS = [["0first"], ["azz"], ["zlast"], ["0first", "zlast"], ["azz", "bzz"]]
+# the Deserializer structs (json_server_str ...) and the convenience functions (json_server_fn_str = json::server_from_str ...)
 SERVER = ["json_server_str", "json_server_slice", "json_server_reader", "smile_server_slice", "smile_server_reader",
-          "smile_server_mut_slice"]
+          "smile_server_mut_slice", "json_server_fn_str", "json_server_fn_slice", "json_server_fn_reader",
+          "smile_server_fn_slice", "smile_server_fn_reader", "smile_server_fn_mut_slice"]
 CLIENT = ["json_client_str", "json_client_slice", "json_client_reader", "smile_client_slice", "smile_client_reader",
-          "smile_client_mut_slice"]
+          "smile_client_mut_slice", "json_client_fn_str", "json_client_fn_slice", "json_client_fn_reader",
+          "smile_client_fn_slice", "smile_client_fn_reader", "smile_client_fn_mut_slice"]
 # the object at the end of the path: two declared fields (twice as often), none, one
 SHAPES = ["struct", "struct0", "struct", "struct1"]
 STEPS = ["some", "newtype_struct", "newtype_variant", "seq_elem", "tuple_elem", "tuple_struct_field",
